@@ -104,7 +104,8 @@ PyFactor(toks, pos) ==
     IF tk \in {"+", "-", "~"} THEN
         LET r == PyFactor(toks, pos + 1) IN
         IF ~r.ok THEN r
-        ELSE PyOk(CASE tk = "+" -> r.e   \* same value (bool -> int aside, ValEq-equal)
+        \* +e means 0 + e: same value for a number (a bool becomes an int), TypeError otherwise
+        ELSE PyOk(CASE tk = "+" -> N("Sum", << r.e >>)
                     [] tk = "-" -> N("Product", << KI(-1), r.e >>)
                     [] tk = "~" -> U("BitNot", r.e), r.pos)
     ELSE PyPower(toks, pos)
